@@ -56,7 +56,7 @@ def evidence_C09(agg, tier):
 
 
 def plan_C08(tier):
-    n = scale(tier, 2600, 200000)
+    n = scale(tier, 2200, 200000)
     return {
         "backends": ["c", "py"],
         "subs": [
